@@ -33,6 +33,7 @@ def main():
             funcs, consts, classes = [], [], []
             const_values = {}
             profiles = {}
+            sources = {}
 
             def prof(q, node):
                 a = node.args
@@ -48,6 +49,15 @@ def main():
                     elif isinstance(st, ast.ClassDef):
                         classes.append(prefix + st.name)
                         rec(st.body, prefix + st.name + '.', True)
+                        if not prefix:
+                            for m in st.body:
+                                if isinstance(m, (ast.FunctionDef, ast.AsyncFunctionDef)):
+                                    body = m.body[1:] if m.body and isinstance(m.body[0], ast.Expr) and isinstance(m.body[0].value, ast.Constant) and isinstance(m.body[0].value.value, str) else m.body
+                                    rets = [n for n in ast.walk(m) if isinstance(n, ast.Return)]
+                                    # single-exit methods of at least two statements can be recognised when their body was written
+                                    # out inside a caller (sa/normalize.py re-outlines them)
+                                    if len(body) >= 2 and len(rets) <= 1 and (not rets or rets[0] is body[-1]) and not any(isinstance(n, (ast.Yield, ast.YieldFrom)) for n in ast.walk(m)):
+                                        sources[st.name + '.' + m.name] = ast.unparse(m)
                     elif isinstance(st, ast.Assign):
                         for t in st.targets:
                             if isinstance(t, ast.Name):
@@ -75,7 +85,7 @@ def main():
                     stack.extend(ast.iter_child_nodes(n))
 
             rec(tree.body, '', False)
-            inv[rel] = {'functions': sorted(set(funcs)), 'constants': sorted(set(consts)), 'classes': sorted(set(classes)), 'profiles': profiles, 'const_values': const_values}
+            inv[rel] = {'functions': sorted(set(funcs)), 'constants': sorted(set(consts)), 'classes': sorted(set(classes)), 'profiles': profiles, 'const_values': const_values, 'sources': sources}
     out = os.path.join(os.path.dirname(os.path.dirname(os.path.abspath(__file__))), 'sa', 'inventory.json')
     json.dump(inv, open(out, 'w'), indent=1, sort_keys=True)
     print(out, sum(len(v['functions']) for v in inv.values()), 'functions', sum(len(v['constants']) for v in inv.values()), 'constants')
